@@ -43,7 +43,7 @@ class Gen:
         self.ch = ch
         self.o = {"max_depth": 3, "max_sites": 22, "on_error": 0.3,
                   "switch": 0.12, "pipes": 0.3, "prefixes": 0.25,
-                  "macros": 0.0, "pyforms": 0.0}
+                  "macros": 0.0, "pyforms": 0.0, "i18n": 0.0}
         self.o.update(opts or {})
         self.nsite = 0
         self.sites: dict[str, dict] = {}     # str(k) -> default value spec
@@ -55,6 +55,7 @@ class Gen:
         self.macro_stack: list[dict] = []     # macros being generated
         self.complete_macros: list[dict] = []  # {"name", "slots"}
         self.in_fill = 0
+        self.in_translate = 0
 
     # -- expressions -------------------------------------------------------------
     def value_for(self, role: str) -> dict:
@@ -181,7 +182,8 @@ class Gen:
                 "switch": None, "case": None, "content": None,
                 "replace": None, "omit": None, "attributes": [],
                 "on_error": None, "define_macro": None, "use_macro": None,
-                "define_slot": None, "fill_slot": None, "children": []}
+                "define_slot": None, "fill_slot": None, "translate": None,
+                "i18n_name": None, "children": []}
 
     def use_macro_element(self, depth: int) -> dict:
         """<x metal:use-macro="template.macros['m']"> with fill-slots."""
@@ -214,7 +216,7 @@ class Gen:
         return el
 
     def element(self, depth: int, in_switch: bool = False,
-                fill_slot: str | None = None) -> dict:
+                fill_slot: str | None = None, name_in: bool = False) -> dict:
         ch = self.ch
         o = self.o
         if o["macros"] and not in_switch and fill_slot is None and \
@@ -231,7 +233,11 @@ class Gen:
             self.macro_stack.append({"name": el["define_macro"], "slots": []})
             is_macro = True
         elif o["macros"] and self.macro_stack and not self.in_fill and \
+                not self.in_translate and \
                 not in_switch and fill_slot is None and ch.coin(0.3):
+            # (not inside a translation block: what a filled slot emits
+            # there does not end up in the message - a METAL/i18n matter
+            # outside the properties checked with this generator)
             self.nslot += 1
             el["define_slot"] = "s%d" % self.nslot
             self.macro_stack[-1]["slots"].append(el["define_slot"])
@@ -305,7 +311,20 @@ class Gen:
                 fe = {"k": "errinfo"}
                 mode = ""
             el["on_error"] = [mode, fe]
+        # i18n:translate="" block (message id computed from the content)
+        is_tr = False
+        if o["i18n"] and not is_switch and not el["content"] and \
+                not el["replace"] and depth < o["max_depth"] and \
+                ch.coin(o["i18n"]):
+            el["translate"] = True
+            is_tr = True
+        if name_in and not in_switch and fill_slot is None and \
+                not el["define_macro"] and ch.coin(0.6):
+            self.nvar += 1
+            el["i18n_name"] = "n%d" % self.nvar
         # children
+        if is_tr:
+            self.in_translate += 1
         if depth < o["max_depth"]:
             n = ch.choose(4) if not is_switch else 1 + ch.choose(3)
             for _ in range(n):
@@ -314,15 +333,18 @@ class Gen:
                         ["lit", "t%d" % ch.choose(10)]]})
                     continue
                 if is_switch or ch.coin(0.6):
-                    el["children"].append(self.element(depth + 1, is_switch))
+                    el["children"].append(self.element(
+                        depth + 1, is_switch, name_in=is_tr))
                 else:
                     el["children"].append(self.text())
         elif not is_switch:
             el["children"].append(self.text())
+        if is_tr:
+            self.in_translate -= 1
         stmts = [s for s in ("define", "condition", "repeat", "switch", "case",
                              "content", "replace", "omit", "attributes",
                              "on_error", "define_macro", "define_slot",
-                             "fill_slot")
+                             "fill_slot", "translate", "i18n_name")
                  if el[s] not in (None, [])]
         el["order"] = ch.shuffle(stmts)
         if is_macro:
@@ -471,6 +493,10 @@ class Ser:
                     self.w(name + " ")
                     self.expr(e, "attr")
                 self.w('"')
+            elif s == "translate":
+                self.w(self.sp() + 'i18n:translate=""')
+            elif s == "i18n_name":
+                self.w(self.sp() + 'i18n:name="%s"' % n[s])
             elif s == "define_macro":
                 self.w(self.sp() + 'metal:define-macro="%s"' % n[s])
             elif s == "define_slot":
